@@ -271,7 +271,10 @@ func (it *TxnIterator) materializeEntry(entry *kv.Entry, cf kv.ColumnFamily, use
 	it.entry.Version = version
 	if kv.IsValuePtr(entry) {
 		if it.opt.KeyOnly {
-			it.entry.Value = entry.Value
+			// Copy the encoded pointer: entry.Value is the storage's own memory, and
+			// it.entry.Value is appended into when the next entry is materialized.
+			it.valueBuf = append(it.valueBuf[:0], entry.Value...)
+			it.entry.Value = it.valueBuf
 			it.item.valueBuf = it.item.valueBuf[:0]
 		} else {
 			var vp kv.ValuePtr
@@ -288,7 +291,8 @@ func (it *TxnIterator) materializeEntry(entry *kv.Entry, cf kv.ColumnFamily, use
 			it.item.valueBuf = it.entry.Value
 		}
 	} else {
-		it.entry.Value = append(it.entry.Value[:0], entry.Value...)
+		it.valueBuf = append(it.valueBuf[:0], entry.Value...)
+		it.entry.Value = it.valueBuf
 		it.item.valueBuf = it.entry.Value
 	}
 	if isDeletedOrExpired(it.entry.Meta, it.entry.ExpiresAt) {
